@@ -1,5 +1,6 @@
 import DFV.JsonField
 import DFV.Model.C17
+import DFV.Model.C17Fast
 namespace DFV.Drv
 open Lean DFV DFV.C17
 
@@ -134,18 +135,14 @@ def c17 (op : String) (j : Json) : Option (R Json) :=
   | "import" => some do
       let inst ← c17AttrsInst j
       match fldOpt j "xa" with
-      | none => pure (resJ c17FldToJson (@fromXarray inst _ (PyObj.other : PyObj String)))
+      | none => pure (resJ c17FldToJson (@fromXarrayFast inst _ (PyObj.other : PyObj String)))
       | some x =>
         let xa ← c17XaOfJson x
-        -- how far each geometric coordinate is from the spacing threshold: the largest
-        -- |d - mean| / (rtol·|mean|) over the axis (≤ 1 passes), for the comparator
-        let margin := (geo xa).map fun a =>
-          if a.values.length ≤ 1 then (0 : Rat)
-          else if meanDiff a.values = 0 then
-            (if (diffs a.values).all (· == 0) then 0 else 1000000)
-          else listMax ((diffs a.values).map fun d =>
-            absR (d - meanDiff a.values) / (1/100000 * absR (meanDiff a.values)))
-        pure ((resJ c17FldToJson (@fromXarray inst _ (.dataArray xa))).setObjVal! "margin" (ratsJ margin))
+        -- `fromXarrayFast = fromXarray` (`Props/C17.fast_import_eq`): the spacing test and the inferred cell
+        -- size in one pass per coordinate, so that axes of thousands of cells are compared too.
+        -- margin: how far each geometric coordinate is from the spacing threshold (≤ 1 passes), for the comparator
+        let margin := (geo xa).map fun a => spacingMargin a.values
+        pure ((resJ c17FldToJson (@fromXarrayFast inst _ (.dataArray xa))).setObjVal! "margin" (ratsJ margin))
   | _ => none
 
 end DFV.Drv
